@@ -158,6 +158,10 @@ def audio_frame(rng, acodec):
     if acodec == "opus":
         return opus_pkt(rng) if rng.random() < 0.9 else opus_pkt(rng, rng.choice([255, 1275]))
     pa = rng.random() < 0.8
+    if rng.random() < 0.1:
+        # a buffer that is longer than the frame its header declares (padding, or the start of the next
+        # frame): accepted, and the stored sample ends at the declared length
+        return adts(rng, protection_absent=pa, extra_tail=rng.choice([1, 2, 7, 9, 40]))
     if rng.random() < 0.12:
         # exercise every bit of the 13-bit frame length field
         fl = rng.choice(ADTS_BOUNDARY_LENGTHS)
@@ -219,6 +223,14 @@ def gen_history(rng, dist, codec=None, audio=None, fast=None, md=None, nv=None, 
     # decode-order video frames
     vops = []
     dts = [t0 + i * step + (rng.random() * step * 0.3 if rng.random() < 0.2 else 0) for i in range(nv)]
+    if rng.random() < 0.25:
+        # variable frame rate: some decode gaps are 5-40 frame periods long (a sample's duration is its
+        # decode gap, so in a reordered stream the sample that ENDS last need not be the one presented last)
+        acc, dts = t0, []
+        for i in range(nv):
+            dts.append(acc)
+            acc += step * rng.choice([1, 1, 1, 5, 12, 40])
+        dist["vfr_long_gaps"] += 1
     dts = sorted(set(dts))
     nv = len(dts)
     if reorder and nv >= 3:
@@ -721,7 +733,7 @@ def gen_C05(rng, tier, dist):
         audio = rng.choice(AUDIOS)
         dist["codec=" + codec] += 1; dist["audio=" + audio] += 1
         if rng.random() < 0.5:
-            ops = contract_history(rng, dist, codec, audio, with_enc=False)
+            ops = contract_history(rng, dist, codec, audio, with_enc=rng.random() < 0.5)
             ops = [o for o in ops if o not in ("fin", "fins", "finish", "finishs", "flush")] + ["fins"]
             out.append(pcase(cfg_str(codec=codec, audio=audio, fast=rng.randrange(2)) + " twin=filter", ops))
         else:
